@@ -14,6 +14,7 @@ import datetime
 import random
 import atexit
 import inspect
+import copy
 import time
 
 from . import api
@@ -105,6 +106,39 @@ def to_real(v):
         return api.Recorder(v['__hostfn__'])
     if isinstance(v, dict) and '__prod__' in v:
         return make_production(v['__prod__'], [to_real(x) for x in v['vals']])
+    return v
+
+
+def struct_copy(v, memo=None):
+    """ copy of the containers and repo-class instances of a value; leaves (numbers, text, error singletons, dates, host callables) are
+        shared, so identity-based comparisons of leaves keep working """
+    memo = {} if memo is None else memo
+    if id(v) in memo:
+        return memo[id(v)]
+    if isinstance(v, list):
+        out = []
+        memo[id(v)] = out
+        out.extend(struct_copy(x, memo) for x in v)
+        return out
+    if isinstance(v, tuple) and not hasattr(v, '_fields'):
+        return tuple(struct_copy(x, memo) for x in v)
+    if isinstance(v, dict):
+        out = type(v)() if not hasattr(v, 'default_factory') else type(v)(v.default_factory)
+        memo[id(v)] = out
+        for k, x in v.items():
+            out[k] = struct_copy(x, memo)
+        return out
+    mod = getattr(type(v), '__module__', '') or ''
+    if mod.startswith('hotxlfp') and not isinstance(v, BaseException) and (hasattr(v, '__dict__') or hasattr(type(v), '__slots__')):
+        out = type(v).__new__(type(v))
+        memo[id(v)] = out
+        names = list(getattr(v, '__dict__', {}).keys()) + [n for n in getattr(type(v), '__slots__', ()) if hasattr(v, n)]
+        for n in names:
+            try:
+                setattr(out, n, struct_copy(getattr(v, n), memo))
+            except AttributeError:
+                return v          # immutable (namedtuple-like): share it
+        return out
     return v
 
 
@@ -208,7 +242,12 @@ class NativeContract(object):
             except Exception as ex:
                 return True, False, 'claim raised %r' % (ex,)
             return True, ok, None if ok else 'claim is false'
+        # a postcondition with an `old` parameter compares the object under the call with its state before the call
+        wants_old = any(pf is not None and 'old' in inspect.signature(pf).parameters for pf in (self.post, self.post_native))
+        old_self = struct_copy(vals[0]) if (wants_old and vals) else None
         call_args = expand_call_args(self.names, self.vararg, copy_lists(vals))
+        if wants_old and vals:
+            call_args = [vals[0]] + list(call_args[1:])          # the method works on THE object the postcondition then looks at
         actual = call_outcome(self.real, call_args)
         if self.decl.get('result_is_p0') and actual.ret:
             prod = [v for v in vals if type(v).__name__ == 'YaccProduction'][0]
@@ -249,7 +288,7 @@ class NativeContract(object):
                     detail.setdefault('expected', '%s(...) holds for every probe value' % pf.__name__)
                 continue
             try:
-                r = pf(*(vals + [actual]))
+                r = pf(*(vals + ([old_self] if 'old' in inspect.signature(pf).parameters else []) + [actual]))
             except Exception as ex:
                 r = False
                 detail['post_raised'] = repr(ex)
